@@ -21,6 +21,8 @@ type C06Reg struct {
 	SleepMs int  `json:"sleep_ms"`
 	Nested  bool `json:"nested,omitempty"` // (side 0 only) publishes an event of type B from inside the handler
 	Sync    bool `json:"sync,omitempty"`   // synchronous registration (may still publish nested async work)
+	Seq     bool `json:"seq,omitempty"`    // Sequential as well (async registrations: deliveries queue for their turn)
+	Filter  int  `json:"filter,omitempty"` // 0 none, 1 even ids, 2 odd ids: registrations of one type see different event counts
 }
 
 type C06Step struct {
@@ -54,6 +56,8 @@ func genC06(rt *rapid.T) core.Scenario {
 			r.Nested = rapid.Bool().Draw(rt, "nested")
 			r.Sync = rapid.IntRange(0, 4).Draw(rt, "sync") == 4
 		}
+		r.Seq = rapid.IntRange(0, 2).Draw(rt, "seq") == 2
+		r.Filter = rapid.SampledFrom([]int{0, 0, 1, 2}).Draw(rt, "filter")
 		sc.Regs = append(sc.Regs, r)
 	}
 	step := func(l string, waiter bool) C06Step {
@@ -189,7 +193,7 @@ func (sc *C06Scenario) Execute(t *testing.T) *core.Outcome {
 			if r.Side == 1 {
 				ti = sc.TypeB
 			}
-			if err := w.SubscribeUID(ti, i%numSites, i, SubOpts{Async: !r.Sync}); err != nil {
+			if err := w.SubscribeUID(ti, i%numSites, i, SubOpts{Async: !r.Sync, Seq: r.Seq, Filter: r.Filter}); err != nil {
 				out.HarnessErr = err.Error()
 				return
 			}
@@ -271,7 +275,7 @@ func (sc *C06Scenario) Execute(t *testing.T) *core.Outcome {
 	for ri, r := range sc.Regs {
 		var want, got []int
 		for _, id := range allEvents {
-			if side[id] == r.Side {
+			if side[id] == r.Side && filterAccepts(r.Filter, id) {
 				want = append(want, id)
 			}
 		}
